@@ -13,10 +13,13 @@ CLAUSE = ("Clause-level static decision: the named structural/algebraic parts, e
 # id -> (implemented?, technique, level text, level note, design ref)
 CHECKS = {
     "C19": (True,
-            "inter-procedural ownership/effect (may-alias, may-write) analysis + who-may-call over the call graph",
+            "inter-procedural ownership/effect (may-alias, may-write) analysis + who-may-call over the call graph; def-use completeness of "
+            "memo-cache keys (PU-CACHE); CFG rule on value-less exits whose value is used (PU-NONE)",
             CLAUSE + "Decides: no public entry point writes through an argument (PU-ARGS), no method mutates an object "
             "reachable from self in place (PU-CAPT), no module/class/default-argument state is written (PU-STATE), RNG and "
-            "pyplot who-may-call (PU-RNG, PU-PLT), integer-closed stores into caller-typed copies (PU-DTYPE). "
+            "pyplot who-may-call (PU-RNG, PU-PLT), integer-closed stores into caller-typed copies and casts of one argument to another's "
+            "dtype (PU-DTYPE), module-level memo caches keyed by everything they depend on (PU-CACHE: a correct cache is not a "
+            "violation, a cache keyed by too little is), no use of the value of a call that can return nothing (PU-NONE). "
             "Declines: bit-identical repeatability of floating-point results.",
             "Trusted: the copy/view/mutator table for external callables in pst/core/own.py; user-supplied weight/kernel "
             "callables are pure by contract; path-insensitive may-analysis (a write behind an infeasible branch would be "
@@ -27,7 +30,9 @@ CHECKS = {
 SYMNOTE = ("Trusted: the primitive table of the symbolic evaluator (pst/core/prims.py: value laws of numpy/scipy/sklearn "
            "callables), exact arithmetic, the stated configuration assumptions (non-empty finite diagrams unless a rule "
            "evaluates another configuration). Equality of derived normal forms is decided structurally or by identity "
-           "testing of the *derived expressions* at random points (persim is never executed). ")
+           "testing of the *derived expressions* at random points (persim is never executed). The evaluator itself is compared with "
+           "CPython on its own corpus of micro-programs and of programs over arrays of symbolic length in every run "
+           "(selftest/conformance: a disagreement is an analysis error). ")
 
 CHECKS.update({
     "C01": (True, "symbolic abstract interpretation to normal forms (cost-matrix blocks, tiling for all sizes), edge relation of the "
@@ -38,7 +43,7 @@ CHECKS.update({
             "corner), BN-CAND (every finite cell of the matrix is among the candidate thresholds — the parts handed to np.unique "
             "are enumerated positionally on small sizes), BN-GRAPH (the graph handed to the matching library is {(r, c): D[r, c] <= d} cell by cell — sets of columns "
             "are membership predicates, compared with the thresholded matrix on sizes up to 3+3 with d at / between / below the "
-            "entries), BN-FILTER/WARN, BN-THRESH, BN-PERFECT, BN-BISECT, BN-ORDER, BN-EMPTY (an empty diagram and a diagram whose "
+            "entries), BN-DTYPE (no float store into an array typed by a diagram, no cast of one diagram to the other's dtype), BN-FILTER/WARN, BN-THRESH, BN-PERFECT, BN-BISECT, BN-ORDER, BN-EMPTY (an empty diagram and a diagram whose "
             "points all have an infinite death are both stood in for by one diagonal point): the "
             "augmented matrix is the statement's cost model for every size, and the search's structural invariants hold. "
             "BN-SEARCH (BOUNDED): with the candidate thresholds replaced by a list of n <= 6 (thorough 9) ordered symbols and the "
@@ -46,7 +51,7 @@ CHECKS.update({
             "candidate for every n and every position of it. Declines: that Hopcroft-Karp finds a maximum matching, float ties.",
             SYMNOTE + "Hopcroft-Karp returns a maximum matching (dict with both directions).", "DESIGN.md §4 C01"),
     "C02": (True, "symbolic abstract interpretation to normal forms (rotation constants folded, blocks, solver wiring)",
-            CLAUSE + "Decides WS-COST, WS-TILE, WS-FILTER/WARN, WS-SOLVE, WS-EMPTY (empty and all-infinite diagrams), IT-ONCE (no one-shot "
+            CLAUSE + "Decides WS-DTYPE (no cast of one diagram to the other's dtype, no float store into a diagram-typed array), ST-CACHE (module-level memo caches written by the analysed code are keyed by everything they depend on — run by every check), WS-COST, WS-TILE, WS-FILTER/WARN, WS-SOLVE, WS-EMPTY (empty and all-infinite diagrams), IT-ONCE (no one-shot "
             "iterator is consumed twice on a path). Declines: optimality of the Hungarian "
             "solver, conditioning.", SYMNOTE + "linear_sum_assignment minimises over perfect assignments.",
             "DESIGN.md §4 C02"),
@@ -54,7 +59,7 @@ CHECKS.update({
                   "distance, plus role-swap comparison of normal forms",
             CLAUSE + "Proves, for all finite non-empty inputs of any size in exact arithmetic: degree-1 homogeneity "
             "(MI-DEG), invariance under diagonal translation (MI-SHIFT), role-swap symmetry of the matrix construction "
-            "(MI-SWAP); decides MI-DIAG (the blocks of the augmented matrix tile it as the cost model requires, "
+            "(MI-SWAP); decides MI-DTYPE (input handling does not cast one diagram to the other's dtype) and MI-DIAG (the blocks of the augmented matrix tile it as the cost model requires, "
             "diagonal-to-diagonal corner 0 — necessary for insensitivity to diagonal points and the closed forms against the "
             "empty diagram). Declines: d(X,X)=0, triangle inequality, diagonal points, closed forms vs the empty diagram, "
             "bottleneck<=Wasserstein (need solver optimality).",
@@ -117,7 +122,7 @@ CHECKS.update({
     "C13": (True, "literal-table validation (Legendre roots/weights; if-chain or table-driven rules), guard cut-off rule over "
                   "the helper-inlined AST + reaching definitions, units typing and normal forms from partial symbolic "
                   "evaluation, dispatch decided on the observed (stubbed) calls of the closed forms and their path conditions",
-            CLAUSE + "Decides KN-GL, KN-REGIME, KN-GUARD, KN-AFF, KN-UNITS, KN-NORM, KN-SBVN, KN-UNI, KN-DISPATCH, KN-STALE (reaching definitions: nothing computed from the un-reflected coordinate "
+            CLAUSE + "Decides KN-DTYPE (no accumulator typed by the coordinates receives the fractional terms), KN-GL, KN-REGIME, KN-GUARD, KN-AFF, KN-UNITS, KN-NORM, KN-SBVN, KN-UNI, KN-DISPATCH, KN-STALE (reaching definitions: nothing computed from the un-reflected coordinate "
             "is used after the reflection for negative correlation, whether the reflection re-binds the name or introduces a "
             "new one), KN-PURE. Declines: "
             "monotonicity, range [0,1], tail limits and 1e-7 agreement with a reference CDF for all arguments.",
@@ -142,7 +147,7 @@ CHECKS.update({
                   "(configuration histories of length 1-3), invariants decided on the derived attribute expressions; "
                   "structural rule against truncated float quotients; boundary-value placement of the spans (a hair above / below / at a "
                   "whole number of pixels) in the coverage test",
-            CLAUSE + "Decides GE-SIB (extent = resolution*pixel, resolution exact/rounded), GE-MESH (resolution+1 nodes, step "
+            CLAUSE + "Decides GE-DTYPE (no helper array typed by the ranges / pixel size the caller wrote receives fractions), GE-SIB (extent = resolution*pixel, resolution exact/rounded), GE-MESH (resolution+1 nodes, step "
             "= pixel, starting at the covered range), GE-COVER (covers the request, excess < 1 pixel), GE-FIT. Declines: "
             "float-level containment when (hi-lo)/pixel is not exactly representable.",
             SYMNOTE + "Ranges of positive extent, pixel_size > 0.", "DESIGN.md §4 C12"),
@@ -155,7 +160,7 @@ CHECKS.update({
                   "whatever the traversal (nested loops, flat chain with seams, piece objects); site rules for wiring; NM-DTYPE (dtype-inheritance dataflow over the functions reachable from the norm entry points)",
             CLAUSE + "Decides NM-LAZY (must-pass-through: every read of the lazily computed data in p_norm / sup_norm lies behind a call that "
             "always runs compute_landscape(), through the MRO), NM-SIGN, NM-FORM (summand = integral of |line|^p in all three arms), NM-HOM (degree 1), NM-ARMS, "
-            "NM-SUP, NM-WIRE, NM-DTYPE (the critical pairs are not laid out in a buffer typed by the landscape's samples). Declines: triangle inequality, stability vs bottleneck, nearly flat segments.",
+            "NM-SUP, NM-WIRE, NM-ALLDEPTHS (the loops of _p_norm over depths and segments run to the end), NM-DTYPE (the critical pairs are not laid out in a buffer typed by the landscape's samples). Declines: triangle inequality, stability vs bottleneck, nearly flat segments.",
             SYMNOTE + "Abscissae strictly increasing along a depth; p >= 1.", "DESIGN.md §4 C10"),
 })
 
@@ -200,7 +205,8 @@ CHECKS.update({
                   "history-dependence analysis by symbolically executing two successive fits on different generic data (no verdict on "
                   "an inexact run); TF-FIXED: a user-fixed end-point is still the user's symbol after two fits; TF-ORDER: transform / "
                   "fit_transform evaluated on collections of 2-5 diagrams, serial and n_jobs=2, with the per-diagram routine observed",
-            CLAUSE + "Decides TF-RO, TF-DATA (fit / transform / fit_transform never write through the data they are given), TF-FT, "
+            CLAUSE + "Decides TF-RO, TF-CACHE (an attribute rebuilt under a recorded key is a memo, not fitted state: the key must contain every "
+            "outside-set attribute the build follows through the class's attribute dependency graph), TF-DATA (fit / transform / fit_transform never write through the data they are given), TF-FT, "
             "TF-ORDER, TF-HIST. The landscaper latches start/stop across fits: genuine defect "
             "kept as known findings K2-start/K2-stop (a latch on any other attribute is still reported). Declines: numerical "
             "equality of outputs across calls.",
@@ -213,7 +219,7 @@ CHECKS.update({
                   "finite domain of breakpoint orderings (bounded list lengths), mismatch guards decided on the path "
                   "condition of the statement returning the sum (operands with independent symbolic grids), AR-DTYPE (dtype-inheritance dataflow: a buffer typed by an operand's values must not receive interpolated floats), site rules for "
                   "padding/re-sampling on the helper-inlined view",
-            CLAUSE + "Decides AR-EFFECT, AR-OWN, AR-LAZY, AR-GUARD, AR-UNARY, AR-PAD (evaluator-based: what union_vals / "
+            CLAUSE + "Decides AR-RETVAL (no operator takes an operand's data from the return value of a call that can return nothing), AR-EFFECT, AR-OWN, AR-LAZY, AR-GUARD, AR-UNARY, AR-PAD (evaluator-based: what union_vals / "
             "union_crit_pairs return for operands of different depth), AR-SNAP (decided on the constructor calls observed while snap_pl is followed on two landscapes with independent symbolic "
             "grids), AR-LAZYREAD (operators compute lazily built operands before reading them), AR-LC, AR-DEFAULT, and — BOUNDED — AR-MERGE: the "
             "slope merge (pos_to_slope_interp / sum_slopes / slope_to_pos_interp through union_crit_pairs) is followed for every "
@@ -231,7 +237,7 @@ CHECKS.update({
                   "delegation wiring decided by symbolic execution of the transformer with the landscape constructor "
                   "observed; site rules with resolved calls on the helper-inlined view: sibling agreement of grid "
                   "reconstructions, nearest-node selection pattern, None-vs-truthiness defaults",
-            CLAUSE + "Decides GL-RAMP (every bar puts exactly one sample step*min(k-NB, ND-k) on every node k strictly between "
+            CLAUSE + "Decides GL-ALLBARS (the loop over the bars of the diagram is not left by break / return: every bar reaches the landscape), GL-RAMP (every bar puts exactly one sample step*min(k-NB, ND-k) on every node k strictly between "
             "the nearest nodes NB, ND of its end-points, and nothing else), GL-PACK (row k of `values` is the (k+1)-st largest "
             "sample over each node, 0 where there are fewer, depth = largest count), GL-VEC (exact->grid: row d is np.interp of "
             "depth d's own breakpoints at the nodes of linspace(start, stop, num_steps), parameters forwarded, defaults = "
